@@ -183,8 +183,16 @@ func (r *run) lifecycle() {
 		r.fail("leak{socket}", "%d socket(s) opened by the service are still open after it stopped:%s", len(open), w.Describe(open))
 		return
 	}
-	if g := simrt.BubbleGoroutines("shadowsocks-go/service"); len(g) != 0 {
-		r.fail("leak{goroutine}", "%d goroutine(s) of the service are still alive after it stopped:\n%s", len(g), firstLines(g[0], 14))
+	// every goroutine that runs repository code and was not started by the harness itself
+	// (harness tasks are created by simrt.(*Sim).Go) belongs to the stopped service
+	var leaked []string
+	for _, g := range simrt.BubbleGoroutines("github.com/database64128/shadowsocks-go/") {
+		if !strings.Contains(g, "created by verifsim/") {
+			leaked = append(leaked, g)
+		}
+	}
+	if len(leaked) != 0 {
+		r.fail("leak{goroutine}", "%d goroutine(s) running repository code are still alive after the service stopped:\n%s", len(leaked), firstLines(leaked[0], 16))
 		return
 	}
 }
